@@ -101,7 +101,7 @@ class Conc:
         out = []
         for b in bd:
             if isinstance(b, Ptr):
-                out.append(("p",) + tuple(sorted((None if r is None else r.key()) for g, r in b.alts if g is not False)))
+                out.append(("p",) + tuple(sorted(((None if r is None else r.key()) for g, r in b.alts if g is not False), key=lambda k: (0,) if k is None else (1,) + k)))
             elif isinstance(b, bool):
                 out.append(("b", b))
             elif isinstance(b, int):
